@@ -29,6 +29,8 @@ const POOL: &[&str] = &[
     // rules with equal masks fuse; the texts contain one another away from the anchor
     "/a|", "/a.b|", ".b|", "/a", "/a.b", "@@/a|", "@@/a.b|", "/a*b|", "/a*b.c|",
     // same bucket, masks that differ in exactly one bit the existing pairs do not cover
+    // empty patterns (match everything) next to token-less partners with the same mask
+    "*$image", "$image", "/a*b$image", "/a$image", "a^$image", "/a.b|$image",
     "advice$script,document", "adv$document", "adv$1p", "advert$~script", "adv$xhr", "advert$websocket", "advice$font,script",
 ];
 
@@ -232,7 +234,7 @@ fn check(ctx: &Ctx) -> i32 {
     });
     ctx.finish(
         "model_checking",
-        "all ordered lists of <= k rules and all k'-element subsets of the 40-rule alphabet (rules that share the wildcard / 'adv*' buckets and differ in one fusion-relevant attribute: pattern, exception, important, tag, type, party, anchors, regex, match-case, hostname, domain, redirect, csp, removeparam); three real blockers per list (built optimised, built unoptimised, unoptimised + optimize() twice), under every tag subset, against 240 requests; all verdict fields and the CSP set must agree; non-trivial = the unoptimised engine reports anything",
+        "all ordered lists of <= k rules and all k'-element subsets of the rule alphabet (rules that share the wildcard / 'adv*' buckets and differ in one fusion-relevant attribute: pattern, exception, important, tag, type, party, anchors, regex, match-case, hostname, domain, redirect, csp, removeparam); three real blockers per list (built optimised, built unoptimised, unoptimised + optimize() twice), under every tag subset, against the request universe; all verdict fields and the CSP set must agree; non-trivial = the unoptimised engine reports anything",
         &["differential: the unoptimised engine is the reference (its own correctness is C01's subject)"],
     )
 }
